@@ -179,6 +179,13 @@ def check(run, replay=None):
                 break
     # ---- reply tables
     tables = [replies.gen_table(rng, 0.75) for _ in range(1000 if thorough else 150)]
+    want, tries = len(tables) // 5, 0          # ... plus tables with a method claiming several handler names (see replyprops.run_l1)
+    while want and tries < 20000:
+        tries += 1
+        t = replies.gen_table(rng, 0.9)
+        if any(len(m.handlers) >= 2 for m in t):
+            tables.append(t)
+            want -= 1
     progs, owner = [], []
     for ti, t in enumerate(tables):
         progs.append(replies.RProg(t))
